@@ -33,6 +33,7 @@ type SpecEnv struct {
 	inOld    bool
 	site     *siteCtx
 	pure     bool // no program state available
+	lenientLocals bool // a local that is not bound on this path reads as an arbitrary value
 }
 
 type siteCtx struct {
@@ -237,6 +238,9 @@ func (e *Exec) specIdent(id *ast.Ident, env *SpecEnv) (Val, types.Type) {
 						if v, ok := env.entry[name]; ok {
 							return v, env.entryT[name]
 						}
+					}
+					if env.lenientLocals {
+						return e.havocVal("unbound."+name, o.Type()), o.Type()
 					}
 					return e.specErr("variable %s is not bound at this point", name)
 				case *types.Const:
@@ -578,6 +582,14 @@ func (e *Exec) specCall(c *ast.CallExpr, env *SpecEnv) (Val, types.Type) {
 				return iv(mkIte(sx("<=", x, y), x, y)), ta
 			}
 			return iv(mkIte(sx(">=", x, y), x, y)), ta
+		case "tdivs", "tmods":
+			a, ta := e.evalSpec1(c.Args[0], env)
+			b, _ := e.evalSpec1(c.Args[1], env)
+			op := "tdiv"
+			if id.Name == "tmods" {
+				op = "tmod"
+			}
+			return iv(sx(op, e.asInt(a), e.asInt(b))), ta
 		case "fdiv", "fmod":
 			a, ta := e.evalSpec1(c.Args[0], env)
 			b, _ := e.evalSpec1(c.Args[1], env)
@@ -717,6 +729,34 @@ func (e *Exec) specCall(c *ast.CallExpr, env *SpecEnv) (Val, types.Type) {
 			v, _ := e.evalSpec1(c.Args[0], env)
 			return v, t
 		}
+		// pkg.F(args): a pure function of another package
+		if id, ok := sel.X.(*ast.Ident); ok {
+			if _, bound := env.names[id.Name]; !bound {
+				if p := e.findImport(env, id.Name); p != nil {
+					if fn, ok := p.Scope().Lookup(sel.Sel.Name).(*types.Func); ok && !e.isVarName(id.Name, env) {
+						args, _ := e.specArgs(c.Args, env)
+						sig := fn.Type().(*types.Signature)
+						var resT types.Type
+						if sig.Results().Len() == 1 {
+							resT = sig.Results().At(0).Type()
+						} else {
+							resT = sig.Results()
+						}
+						if es := e.g.lookupExtern(fn, nil); es != nil && es.Pure && es.Def != nil {
+							names := map[string]boundVar{}
+							for i, n := range es.Params {
+								if i < len(args) {
+									names[n] = boundVar{args[i], sig.Params().At(i).Type()}
+								}
+							}
+							v, _ := e.evalSpec1(es.Def.Expr, env.with(names))
+							return v, resT
+						}
+						return e.pureApp(fn, nil, nil, args, resT), resT
+					}
+				}
+			}
+		}
 		// pure method call: recv.M(args)
 		recv, rt := e.evalSpec1(sel.X, env)
 		if rt == nil {
@@ -744,6 +784,22 @@ func (e *Exec) specCall(c *ast.CallExpr, env *SpecEnv) (Val, types.Type) {
 			resT = sig.Results().At(0).Type()
 		} else {
 			resT = sig.Results()
+		}
+		// extern with a definition: expand it
+		if es := e.g.lookupExtern(fn, rt); es != nil && es.Pure && es.Def != nil {
+			names := map[string]boundVar{}
+			all := append([]Val{recv}, args...)
+			allT := []types.Type{rt}
+			for i := 0; i < sig.Params().Len(); i++ {
+				allT = append(allT, sig.Params().At(i).Type())
+			}
+			for i, n := range es.Params {
+				if i < len(all) {
+					names[n] = boundVar{all[i], allT[i]}
+				}
+			}
+			v, _ := e.evalSpec1(es.Def.Expr, env.with(names))
+			return v, resT
 		}
 		return e.pureApp(fn, rt, recv, args, resT), resT
 	}
@@ -920,13 +976,16 @@ func (e *Exec) pureApp(fn *types.Func, recvT types.Type, recv Val, args []Val, r
 		case kBool:
 			e.declareFun(name+suffix, ss, SBool)
 			return bv(sx(name+suffix, as...))
-		case kSlice:
+		case kSlice, kArray:
 			var parts [3]string
 			for i, p := range []string{".base", ".off", ".len"} {
 				e.declareFun(name+suffix+p, ss, SInt)
 				parts[i] = sx(name+suffix+p, as...)
 			}
 			e.addFact(mkAnd(sx(">=", parts[2], "0"), sx(">=", parts[1], "0")))
+			if a, ok := t.Underlying().(*types.Array); ok {
+				e.addFact(mkEq(parts[2], mkInt(a.Len())))
+			}
 			return SliceV{parts[0], parts[1], parts[2], parts[2]}
 		default:
 			e.declareFun(name+suffix, ss, SInt)
@@ -1058,4 +1117,22 @@ func (e *Exec) boxIfConcrete(v Val, t types.Type) Val {
 		return v
 	}
 	return e.box(v, t)
+}
+
+func (e *Exec) isVarName(name string, env *SpecEnv) bool {
+	if env.entry != nil {
+		if _, ok := env.entry[name]; ok {
+			return true
+		}
+	}
+	if env.scopePos != 0 && env.pkg != nil {
+		if sc := env.pkg.Types.Scope().Innermost(env.scopePos); sc != nil {
+			if _, obj := sc.LookupParent(name, env.scopePos); obj != nil {
+				if _, isPkg := obj.(*types.PkgName); !isPkg {
+					return true
+				}
+			}
+		}
+	}
+	return false
 }
